@@ -563,6 +563,19 @@ Section Direction.
   Qed.
 End Direction.
 
+Lemma on_time_emit d now dgs : 0 <= d -> forall w, on_time w d now -> on_time (wd_emit w now dgs) d now.
+Proof.
+  intros Hd. unfold wd_emit. induction dgs as [|dg r IH]; intros w H; cbn [fold_left]; [exact H|].
+  apply IH. unfold on_time, wd_emit1 in *. cbn [wd_pend]. apply Forall_app. split; [exact H|].
+  constructor; [cbn; lia|constructor].
+Qed.
+
+Lemma on_time_present w d now s : on_time w d now -> on_time (wd_present w s) d now.
+Proof.
+  unfold on_time. destruct s; cbn [wd_present wd_pend]; auto.
+  rewrite !Forall_forall. intros H p Hp. apply filter_In in Hp as [Hp _]. auto.
+Qed.
+
 (* ================= Part 4: the pair ================= *)
 Section Pair.
   Variables (e : env) (P : tparams) (k : Z) (cli0 srv0 : conn) (t0 : Z).
@@ -575,6 +588,8 @@ Section Pair.
     ti_swept : t_swept n = false;
     ti_tkC : t_clk n - t_tickC n <= tp_tau P;
     ti_tkS : t_clk n - t_tickS n <= tp_tau P;
+    ti_otC : on_time (t_cs n) (tp_d P) (t_clk n);
+    ti_otS : on_time (t_sc n) (tp_d P) (t_clk n);
     ti_cs : dir_inv k (kmax cli0) (tp_tau P) (c_seq_send cli0) (base_time cli0 t0)
               (c_seq_send (t_cli n)) (c_last_ka (t_cli n)) (c_bf_pkt (t_srv n)) (c_last_recv (t_srv n))
               (t_cs n) (t_clk n) (t_tickC n);
@@ -603,6 +618,8 @@ Section Pair.
     - reflexivity.
     - lia.
     - lia.
+    - constructor.
+    - constructor.
     - apply dir_init; assumption.
     - apply dir_init; assumption.
   Qed.
@@ -622,7 +639,7 @@ Section Pair.
 
   Lemma tinv_step n v : tinv n -> tok P n v -> tinv (tstep e P n v).
   Proof.
-    intros [Ic Is Isw _ _ Ics Isc] (Hclk & HtC & HtS & HoC & HoS & Hsrc).
+    intros [Ic Is Isw _ _ _ _ Ics Isc] (Hclk & HtC & HtS & HoC & HoS & Hsrc).
     destruct Hpar as (Hd & Htau & HMC & HMS & HT & H5 & HrC & HrS).
     destruct v as [now s|now s|now]; cbn [tev_time] in *; cbn [tstep].
     - (* UdpClient.update *)
@@ -639,6 +656,8 @@ Section Pair.
       + exact Isw.
       + lia.
       + lia.
+      + apply on_time_emit; assumption.
+      + apply on_time_present; assumption.
       + eapply (dir_emit _ _ _ _ _ HMC); try eassumption.
       + rewrite (eo_key _ _ _ _ Ic) in Hsrc. eapply (dir_recv _ _ _ (tp_d P) _ _ HMS Htau HrS); try eassumption.
         unfold rx_post in Rx. rewrite (eo_key _ _ _ _ Ic) in Rx. exact Rx.
@@ -659,6 +678,8 @@ Section Pair.
         * exact Isw.
         * lia.
         * lia.
+        * apply on_time_present; assumption.
+        * assumption.
         * eapply (dir_recv _ _ _ (tp_d P) _ _ HMC Htau HrC); try eassumption. rewrite Er.
           unfold rx_post in Rx. rewrite (eo_key _ _ _ _ Is) in Rx. exact Rx.
         * rewrite Sq, Lk. eapply dir_time; eassumption.
@@ -677,6 +698,8 @@ Section Pair.
       + reflexivity.
       + lia.
       + lia.
+      + assumption.
+      + apply on_time_emit; assumption.
       + rewrite Lr, Bf. eapply dir_time; eassumption.
       + eapply (dir_emit _ _ _ _ _ HMS); try eassumption.
   Qed.
@@ -697,7 +720,7 @@ Theorem idle_pair_stays_up e P k cli srv t0 hs :
   pair_up k (trun e P (tnet0 cli srv t0) hs).
 Proof.
   intros He Hp Hv. pose proof (tinv_run e P k cli srv t0 Hp hs _ (tinv_init P k cli srv t0 He Hp) Hv) as I.
-  destruct I as [[] [] Sw _ _ _ _]. unfold pair_up. auto.
+  destruct I as [[] [] Sw _ _ _ _ _ _]. unfold pair_up. auto.
 Qed.
 
 Lemma dir_cadence k M tau N0 v0 sx lkx bfy lry w clk tickx :
@@ -718,7 +741,21 @@ Theorem idle_pair_cadence e P k cli srv t0 hs :
    /\ Forall (fun x => ka_dgram k (snd x)) (wd_log (t_sc n))).
 Proof.
   intros He Hp Hv. pose proof (tinv_run e P k cli srv t0 Hp hs _ (tinv_init P k cli srv t0 He Hp) Hv) as I.
-  destruct I as [_ _ _ TC TS Ics Isc]. cbv zeta. split; eapply dir_cadence; eassumption.
+  destruct I as [_ _ _ TC TS _ _ Ics Isc]. cbv zeta. split; eapply dir_cadence; eassumption.
+Qed.
+
+(* (1'), quantitatively: at every moment neither liveness clock is older than the sender's
+   keep-alive period + one tick + the network delay — which is why neither time-out rule fires *)
+Theorem idle_pair_clocks_fresh e P k cli srv t0 hs :
+  established k t0 cli srv -> params_ok P cli srv -> tvalid e P (tnet0 cli srv t0) hs ->
+  let n := trun e P (tnet0 cli srv t0) hs in
+  t_clk n - c_last_recv (t_srv n) <= kmax cli + tp_tau P + tp_d P /\
+  t_clk n - c_last_recv (t_cli n) <= kmax srv + tp_tau P + tp_d P.
+Proof.
+  intros He Hp Hv. pose proof (tinv_run e P k cli srv t0 Hp hs _ (tinv_init P k cli srv t0 He Hp) Hv) as I.
+  destruct I as [_ _ _ TC TS OC OS Ics Isc]. destruct Hp as (Hd & _). cbv zeta. split.
+  - eapply (dir_safe _ _ _ _ _ _ Hd); [exact Ics|lia|exact TC|exact OC].
+  - eapply (dir_safe _ _ _ _ _ _ Hd); [exact Isc|lia|exact TS|exact OS].
 Qed.
 
 (* every prefix of an admissible history is admissible (so the two theorems speak about every
